@@ -110,8 +110,19 @@ class C18(PureCheck):
                         if tier == "quick" and len(rows) > 1 and (top0 + last0 + sum(rows) + nested) % 3:
                             continue
                         yield {"op": "vdiff", "top0": top0, "last0": last0, "rows": rows, "nested": nested}
+        # the nested call arriving at every line of the outer call
+        for (top0, last0, rows) in ((5, 5, [8, 8, 8]), (0, 2, [5, 5, 5]), (3, 4, [1, 1, 1]), (-1, 0, [3, 4, 4]), (2, -1, [4, 6, 6]), (1, 3, [3, 3, 3])):
+            for k in range(1, 41):
+                yield {"op": "vdiff", "top0": top0, "last0": last0, "rows": rows, "nested": 0, "nested_line": k}
 
     def execute(self, inp):
+        import sys
+        try:
+            return self._execute_case(inp)
+        finally:
+            sys.settrace(None)
+
+    def _execute_case(self, inp):
         from curtsies.window import CursorAwareWindow
         ev = dict(inp)
         out = winlib.CaptureStream(24, 80)
@@ -158,11 +169,40 @@ class C18(PureCheck):
                         state["nested_done"] = True
                         state["nestedret"] = win.get_cursor_vertical_diff()
                 ins.on_read = on_read
+                ev["free"] = 0
+                if inp.get("nested_line"):
+                    # a second call (a SIGWINCH handler) arrives at the k-th line the outer call executes in window.py -
+                    # before the query, during it, or during the bookkeeping that follows
+                    import sys
+                    ev["free"] = 1
+                    cnt = [0]
+
+                    def tracer(frame, event, arg):
+                        if not frame.f_code.co_filename.endswith("window.py"):
+                            return None
+                        # lines of the two bookkeeping functions only (arrivals during the query itself are the
+                        # read-time injections above)
+                        if frame.f_code.co_name not in ("get_cursor_vertical_diff", "_get_cursor_vertical_diff_once"):
+                            return tracer
+                        if event == "line" and not state["nested_done"]:
+                            cnt[0] += 1
+                            if cnt[0] == inp["nested_line"]:
+                                state["nested_done"] = True
+                                sys.settrace(None)
+                                try:
+                                    state["nestedret"] = win.get_cursor_vertical_diff()
+                                finally:
+                                    sys.settrace(tracer)
+                        return tracer
+                    sys.settrace(tracer)
                 try:
                     ev["ret"] = win.get_cursor_vertical_diff()
                     ev["k"], ev["t"] = "ok", ""
                 except Exception as e:  # noqa
                     ev["ret"], ev["k"], ev["t"] = 0, "exc", enc.exc_name(e)
+                if inp.get("nested_line"):
+                    import sys
+                    sys.settrace(None)
                 ev["top1"] = win.top_usable_row
                 ev["last1"] = -1 if win._last_cursor_row is None else win._last_cursor_row
                 ev["nestedret"] = state["nestedret"]
